@@ -172,6 +172,58 @@ func c10RecvLoop(c *Ctx, a *clientAnchors) {
 			r.Violation("C10-K1", key("unconditional channel send"), c.P.ipos(s), "delivery outside a select with the entry's done channel can block the receive loop forever while it holds the lock")
 		}
 	})
+	// the delivering select may sit in an unexported helper called from the loop (deliver(p, msg)): its
+	// expressions are rewritten in the loop's terms (parameters replaced by the arguments of the call)
+	rew := func(s string) string { return s }
+	selIn := fn
+	var deliverCall *ssa.Call
+	if sel == nil {
+		allInstrs(fn, func(in ssa.Instruction) {
+			cl, ok := in.(*ssa.Call)
+			if !ok || !loop[cl.Block()] || sel != nil {
+				return
+			}
+			g := cl.Call.StaticCallee()
+			if g == nil || g.Blocks == nil || funcPkg(g) != a.pkg.Pkg || token.IsExported(g.Name()) || hasNonCallRef(g) {
+				return
+			}
+			allInstrs(g, func(i2 ssa.Instruction) {
+				if s2, ok := i2.(*ssa.Select); ok {
+					for _, stt := range s2.States {
+						if stt.Dir == types.SendOnly {
+							sel, sendState, selIn, deliverCall = s2, stt, g, cl
+						}
+					}
+				}
+			})
+		})
+		if sel != nil {
+			g, cl := selIn, deliverCall
+			subst := map[string]string{}
+			for i, p := range g.Params {
+				if i < len(cl.Call.Args) {
+					subst[sx.Of(p).String()] = sx.Of(cl.Call.Args[i]).String()
+				}
+			}
+			rew = func(s string) string {
+				for from, to := range subst {
+					s = strings.ReplaceAll(s, from, to)
+				}
+				return s
+			}
+			a.deliverFn, a.deliverCall = g, cl
+			// the helper has exactly one call site
+			n := 0
+			for _, h := range a.pkgFuncs(c.P) {
+				allInstrs(h, func(i3 ssa.Instruction) {
+					if ci, ok := i3.(ssa.CallInstruction); ok && ci.Common().StaticCallee() == g {
+						n++
+					}
+				})
+			}
+			r.Check(n == 1, "C10-K1", key("the delivery helper "+g.Name()+" is called only from the receive loop"), c.P.ipos(cl), "single call site", fmt.Sprintf("%d call sites", n))
+		}
+	}
 	if sel == nil {
 		r.Undecided("C10-K1", key("delivery"), c.P.ipos(read), "no select with a send case found")
 		return
@@ -179,16 +231,16 @@ func c10RecvLoop(c *Ctx, a *clientAnchors) {
 	// K1: key, channel and value
 	msgSx := sx.Of(msg).String()
 	lookWant := "lookup(field[pending](" // prefix
-	chS := sx.Of(sendState.Chan).String()
+	chS := rew(sx.Of(sendState.Chan).String())
 	keyWant := "field[TransactionID](" + msgSx + ")"
 	okCh := strings.HasPrefix(chS, "field[ch](extract[0]("+lookWant) && strings.Contains(chS, ","+keyWant+")")
 	r.Check(okCh, "C10-K1", key("delivery channel is pending[msg.TransactionID].ch"), c.P.ipos(sel), "symx", "channel is "+chS+"; want field ch of the entry looked up under "+keyWant)
-	r.Check(sx.Of(sendState.Send).String() == msgSx, "C10-K1", key("delivered value is the decoded message"), c.P.ipos(sel), "symx", "value sent is "+sx.Of(sendState.Send).String()+", want "+msgSx)
+	r.Check(rew(sx.Of(sendState.Send).String()) == msgSx, "C10-K1", key("delivered value is the decoded message"), c.P.ipos(sel), "symx", "value sent is "+rew(sx.Of(sendState.Send).String())+", want "+msgSx)
 	// the other select state must be a receive on the same entry's done
 	hasDone := false
 	for _, stt := range sel.States {
 		if stt.Dir == types.RecvOnly {
-			s := sx.Of(stt.Chan).String()
+			s := rew(sx.Of(stt.Chan).String())
 			if strings.HasPrefix(s, "field[done](extract[0]("+lookWant) && strings.Contains(s, ","+keyWant+")") {
 				hasDone = true
 			}
@@ -198,6 +250,9 @@ func c10RecvLoop(c *Ctx, a *clientAnchors) {
 		"the delivering select has no receive case on the same entry's done channel: a caller that stopped listening blocks the loop")
 	// present-edge: select only if ok
 	sb := sel.Block()
+	if deliverCall != nil {
+		sb = deliverCall.Block() // the filters guard the call of the delivery helper
+	}
 	var look *ssa.Lookup
 	allInstrs(fn, func(in ssa.Instruction) {
 		if l, ok := in.(*ssa.Lookup); ok && l.CommaOk && a.isClientFieldLoad(l.X, "pending") {
@@ -207,10 +262,46 @@ func c10RecvLoop(c *Ctx, a *clientAnchors) {
 	// atoms of the split graph (sgraph.go): conditions are recognised whether they are tested by nested ifs,
 	// by `a && b`, or as switch cases
 	atoms := atomsIn(fn)
+	// calleePass: the result of an unexported boolean helper being `val` guarantees pred: every way the helper
+	// can return val passes, inside the helper, an edge on which pred holds (disjunctions such as
+	// "no address configured or addresses equal" have no single atom, but every path has one of them)
+	calleePass := func(x atomFact, pred func(atomFact) bool) bool {
+		cl, ok := x.v.(*ssa.Call)
+		if !ok {
+			return false
+		}
+		g := cl.Call.StaticCallee()
+		if g == nil || g.Blocks == nil || funcPkg(g) != a.pkg.Pkg || token.IsExported(g.Name()) || g.Signature.Results().Len() != 1 {
+			return false
+		}
+		any := func(as []atomFact) bool {
+			for _, y := range as {
+				if pred(y) {
+					return true
+				}
+			}
+			return false
+		}
+		n := 0
+		for _, ret := range returnsOf(g) {
+			if k, isK := boolConst(ret.Results[0]); isK && k != x.val {
+				continue
+			}
+			n++
+			if mustPassAtoms(g, ret.Block(), any) {
+				continue
+			}
+			if _, isK := boolConst(ret.Results[0]); !isK && any(impliedAtoms(ret.Results[0], x.val, 0)) {
+				continue
+			}
+			return false
+		}
+		return n > 0
+	}
 	passOnly := func(pred func(atomFact) bool) bool {
 		return mustPassAtoms(fn, sb, func(as []atomFact) bool {
 			for _, x := range as {
-				if pred(x) {
+				if pred(x) || calleePass(x, pred) {
 					return true
 				}
 			}
@@ -222,8 +313,46 @@ func c10RecvLoop(c *Ctx, a *clientAnchors) {
 			if pred(x) {
 				return true
 			}
+			if cl, ok := x.v.(*ssa.Call); ok {
+				if g := cl.Call.StaticCallee(); g != nil && g.Blocks != nil && funcPkg(g) == a.pkg.Pkg && !token.IsExported(g.Name()) {
+					for _, y := range atomsIn(g) {
+						if pred(y) {
+							return true
+						}
+					}
+				}
+			}
 		}
 		return false
+	}
+	// sxIn: symx of a value in the loop's terms; a value of a helper called from the loop (atoms reached through
+	// a boolean helper such as isForUs(msg)) has the helper's parameters replaced by the arguments of its call
+	substOf := map[*ssa.Function]map[string]string{}
+	sxIn := func(v ssa.Value) string {
+		str := sx.Of(v).String()
+		in, ok := v.(ssa.Instruction)
+		if !ok || in.Parent() == nil || in.Parent() == fn {
+			return str
+		}
+		g := in.Parent()
+		sub, done := substOf[g]
+		if !done {
+			sub = map[string]string{}
+			allInstrs(fn, func(i2 ssa.Instruction) {
+				if cl, ok := i2.(*ssa.Call); ok && cl.Call.StaticCallee() == g {
+					for i, p := range g.Params {
+						if i < len(cl.Call.Args) {
+							sub[sx.Of(p).String()] = sx.Of(cl.Call.Args[i]).String()
+						}
+					}
+				}
+			})
+			substOf[g] = sub
+		}
+		for from, to := range sub {
+			str = strings.ReplaceAll(str, from, to)
+		}
+		return str
 	}
 	isNilC := func(v ssa.Value) bool { k, ok := v.(*ssa.Const); return ok && k.Value == nil }
 	// nilAtom: x is `v == nil` / `v != nil` for a v satisfying isV; returns whether the atom (with its value) means v is nil
@@ -270,7 +399,7 @@ func c10RecvLoop(c *Ctx, a *clientAnchors) {
 			if !isBo || (bo.Op != token.EQL && bo.Op != token.NEQ) {
 				return false, false
 			}
-			xs, ys := sx.Of(bo.X).String(), sx.Of(bo.Y).String()
+			xs, ys := sxIn(bo.X), sxIn(bo.Y)
 			if !((xs == opf && ys == "const(2)") || (ys == opf && xs == "const(2)")) {
 				return false, false
 			}
@@ -293,7 +422,7 @@ func c10RecvLoop(c *Ctx, a *clientAnchors) {
 			if !isCl || !isFuncCall(cl.Common(), "bytes", "Equal") {
 				return false, false
 			}
-			s0, s1 := sx.Of(cl.Call.Args[0]).String(), sx.Of(cl.Call.Args[1]).String()
+			s0, s1 := sxIn(cl.Call.Args[0]), sxIn(cl.Call.Args[1])
 			hw := "field[ClientHWAddr](" + msgSx + ")"
 			if !((s0 == hw && isHW(cl.Call.Args[1])) || (s1 == hw && isHW(cl.Call.Args[0]))) {
 				return false, false
@@ -316,25 +445,35 @@ func c10RecvLoop(c *Ctx, a *clientAnchors) {
 		}
 	}
 	// K8: close(p.ch) only with delete, under lock
-	li := a.lockFlow(fn)
-	allInstrs(fn, func(in ssa.Instruction) {
-		cl, ok := in.(*ssa.Call)
-		if !ok {
-			return
-		}
-		if isBuiltinCall(cl.Common(), "close") {
-			r.Check(li.must[in], "C10-K8", key("close of transaction channel under the lock"), c.P.ipos(in), "must-hold", "a transaction channel is closed without pendingMu held")
-			// a delete on pending follows in the same block
-			hasDel := false
-			for _, x := range cl.Block().Instrs[instrIndex(cl):] {
-				if d, ok := x.(*ssa.Call); ok && isBuiltinCall(d.Common(), "delete") && a.isClientFieldLoad(d.Call.Args[0], "pending") {
-					hasDel = sx.Of(d.Call.Args[1]).String() == keyWant
-				}
+	k8fns := []*ssa.Function{fn}
+	if selIn != fn {
+		k8fns = append(k8fns, selIn)
+	}
+	for _, kf := range k8fns {
+		li := a.lockFlow(kf)
+		allInstrs(kf, func(in ssa.Instruction) {
+			cl, ok := in.(*ssa.Call)
+			if !ok {
+				return
 			}
-			r.Check(hasDel, "C10-K8", key("close of transaction channel together with deletion of its entry"), c.P.ipos(in), "delete(pending, msg.TransactionID) in the same block",
-				"the channel is closed but its entry stays in pending: a later delivery would send on a closed channel")
-		}
-	})
+			if isBuiltinCall(cl.Common(), "close") {
+				r.Check(li.must[in], "C10-K8", key("close of transaction channel under the lock"), c.P.ipos(in), "must-hold", "a transaction channel is closed without pendingMu held")
+				// a delete on pending follows in the same block
+				hasDel := false
+				for _, x := range cl.Block().Instrs[instrIndex(cl):] {
+					if d, ok := x.(*ssa.Call); ok && isBuiltinCall(d.Common(), "delete") && a.isClientFieldLoad(d.Call.Args[0], "pending") {
+						ks := sx.Of(d.Call.Args[1]).String()
+						if kf != fn {
+							ks = rew(ks)
+						}
+						hasDel = ks == keyWant
+					}
+				}
+				r.Check(hasDel, "C10-K8", key("close of transaction channel together with deletion of its entry"), c.P.ipos(in), "delete(pending, msg.TransactionID) in the same block",
+					"the channel is closed but its entry stays in pending: a later delivery would send on a closed channel")
+			}
+		})
+	}
 	// loop exits: only on read error
 	readErr := extractOf(read, 2)
 	for b := range loop {
@@ -608,7 +747,12 @@ func c10Locks(c *Ctx, a *clientAnchors) {
 					r.Check(li.must[in], "C10-K5", shortName(f)+": Unlock only when held", c.P.ipos(in), "must-hold at Unlock", "pendingMu.Unlock on a path where it is not held")
 				}
 			case *ssa.Return:
-				r.Check(!li.may[in], "C10-K5", shortName(f)+": lock released at return", c.P.ipos(in), "may-hold false at return", "a return path leaves pendingMu held")
+				if em, _ := a.entryLock(f); em {
+					// a helper entered with the lock held (every call site holds it) returns with it held
+					r.Check(li.must[in], "C10-K5", shortName(f)+": lock still held at return (held on entry)", c.P.ipos(in), "must-hold at return", "a helper that is entered with pendingMu held releases it on some path: its caller unlocks again")
+				} else {
+					r.Check(!li.may[in], "C10-K5", shortName(f)+": lock released at return", c.P.ipos(in), "may-hold false at return", "a return path leaves pendingMu held")
+				}
 			case *ssa.Defer:
 				if x.Call.StaticCallee() != nil && x.Call.StaticCallee().Name() == "Unlock" && len(x.Call.Args) > 0 && a.isClientFieldAddr(x.Call.Args[0], "pendingMu") {
 					r.Undecided("C10-K5", shortName(f)+": deferred Unlock", c.P.ipos(in), "deferred Unlock is outside the recognised idioms of the lock dataflow")
